@@ -110,7 +110,26 @@ def run_shard(spec, acc):
     quick = tier == "quick"
     dec, enc = NMEA2000Decoder(), NMEA2000Encoder()
     defs = [d for d in dbx.defs if d.encodable]
-    defs = [d for k, d in enumerate(defs) if k % spec["n"] == spec["i"]]
+    # all definitions of one PGN number stay in the same shard (= same process), so that state leaking between
+    # sibling definitions of a proprietary PGN is observable
+    pgn_order = sorted({d.pgn for d in defs})
+    mine = {p for k, p in enumerate(pgn_order) if k % spec["n"] == spec["i"]}
+    defs = [d for d in defs if d.pgn in mine]
+    # interleaved siblings first and last: A, B, A, C, B ... (a round trip must not depend on what was encoded before)
+    by_pgn = {}
+    for d in defs:
+        by_pgn.setdefault(d.pgn, []).append(d)
+    multi = [ds for ds in by_pgn.values() if len(ds) > 1]
+
+    def interleaved(tag):
+        for ds in multi:
+            r2 = gen.rng_for(seed, ID, "siblings", ds[0].pgn, tag)
+            for _ in range(60 if quick else 1500):
+                d = r2.choice(ds)
+                nb = d.length if d.length is not None else (d.total_bits() + 7) // 8
+                roundtrip(dbx, dec, enc, d, dbx.pack(d, gen.base_raws(d, r2, dbx)), nb, acc, f"interleaved-siblings-{tag}")
+                acc.count("interleaved_sibling_roundtrips")
+    interleaved("before")
     for d in defs:
         rng = gen.rng_for(seed, ID, d.id)
         acc.count("definitions_exercised")
@@ -156,6 +175,7 @@ def run_shard(spec, acc):
                     roundtrip(dbx, dec, enc, d, dbx.pack(d, raws), nb, acc, f"{f.id}:sweep")
         if acc.evaluations and len(acc.samples) < 4:
             acc.sample({"definition": d.id, "payload_hex": dbx.pack(d, base).to_bytes(nb, "little").hex()})
+    interleaved("after")
 
 
 def replay(w, acc):
